@@ -20,6 +20,21 @@ from . import standins as S
 
 VARS = "cnfgen.formula.variables"
 GLOBALS = {k: getattr(S, k) for k in ("BaseBipartiteGraph", "BipartiteGraph", "CompleteBipartiteGraph", "Graph", "DirectedGraph")}
+def _regular_graph(d, n, seed=None):
+    """stand-in for networkx.random_regular_graph: the circulant d-regular graph on 1..n (a fixed member of the set the library draws from)"""
+    if not (isinstance(d, int) and isinstance(n, int)) or d < 0 or n < 0 or d >= max(n, 1) or (d * n) % 2:
+        raise ValueError("no such regular graph")
+    edges = set()
+    for i in range(n):
+        for step in range(1, d // 2 + 1):
+            edges.add(tuple(sorted((i + 1, (i + step) % n + 1))))
+        if d % 2:
+            edges.add(tuple(sorted((i + 1, (i + n // 2) % n + 1))))
+    return S.Graph.make(n, sorted(edges))
+
+
+import types as _types
+GLOBALS["networkx"] = _types.SimpleNamespace(random_regular_graph=_regular_graph)
 BUILDERS = ("add_clause", "add_parity", "add_linear", "add_loose_majority", "add_strict_majority", "add_loose_minority", "add_strict_minority",
             "cardinality_eq", "cardinality_neq", "cardinality_geq", "cardinality_leq", "cardinality_gt", "cardinality_lt", "add_exactly_one")
 
@@ -62,6 +77,12 @@ def make_formula(world, log):
     vm = world.new("VariablesManager", None)
     vm._formula = vm
     state = {"n": 0}
+    own, readable = [], [True]
+
+    def clauses():
+        if not readable[0]:
+            raise Unknown("the clauses of a formula built with constraints other than clauses and parities are read back")
+        return [list(c) for c in own]
 
     def number_of_variables():
         return state["n"]
@@ -79,6 +100,21 @@ def make_formula(world, log):
             if k.get("check", True) and lits:
                 update_variable_number(max(abs(l) for l in lits))
             log.append((name, tuple(sorted(lits)), tuple(repr(x) for x in a[1:])))
+            # the formula's own clauses, for code that reads a template formula back (`for clause in T`)
+            if name == "add_clause":
+                own.append(list(lits))
+            elif name == "add_parity" and len(a) > 1 and len(lits) <= 8:
+                want = int(bool(a[1])) if isinstance(a[1], (bool, int)) else None
+                if want is None:
+                    readable[0] = False
+                else:
+                    for signs in itertools.product([1, -1], repeat=len(lits)):
+                        # a clause excludes the assignment that falsifies all its literals: exclude the assignments of the wrong parity
+                        falsifying_true = sum(1 for s_ in signs if s_ == -1)          # variables set to true by the excluded assignment
+                        if falsifying_true % 2 != want:
+                            own.append([s_ * l for s_, l in zip(signs, lits)])
+            else:
+                readable[0] = False
         return f
     vm.number_of_variables = number_of_variables
     vm.update_variable_number = update_variable_number
@@ -89,6 +125,8 @@ def make_formula(world, log):
         for c in cs:
             vm.add_clause(c, check=check)
     vm.add_clauses_from = add_clauses_from
+    vm.__dict__["__iter__"] = clauses
+    vm.clauses = clauses
     vm.__dict__["__len__"] = lambda: len(log)
     vm.number_of_clauses = lambda: len(log)
     vm.header = {}
@@ -118,7 +156,9 @@ POOLS = {
 MAX_INSTANCES = 60
 
 
-OVERRIDE = {("GraphPigeonholePrinciple", "G"): "bipartite", ("CPLSFormula", "a"): [1, 2, 3], ("CPLSFormula", "b"): [1, 2, 4, 3],
+OVERRIDE = {("PitfallFormula", "v"): [3, 4, 5], ("PitfallFormula", "d"): [2, 3, 1], ("PitfallFormula", "k"): [2, 4, 3, 2], ("PitfallFormula", "ny"): [1, 2, 3],
+            ("PitfallFormula", "nz"): [1, 2],
+            ("GraphPigeonholePrinciple", "G"): "bipartite", ("CPLSFormula", "a"): [1, 2, 3], ("CPLSFormula", "b"): [1, 2, 4, 3],
             ("CPLSFormula", "c"): [1, 2, 4, 3]}
 
 
